@@ -91,6 +91,11 @@ def make_fault(ctx, ftype):
 		p = os.path.join(d, 'junk.fasta')
 		open(p, 'wb').write(bytes(random.Random(5).randrange(256) for _ in range(500)))
 		return p
+	if ftype in ('odd_empty', 'odd_only_header', 'odd_empty_gz', 'odd_blank_lines'):
+		# unusual but well-formed inputs without any sequence data: whatever the single-file computation says is the expectation
+		p = os.path.join(d, ftype + '.fasta')
+		open(p, 'wb').write({'odd_empty': b'', 'odd_only_header': b'>lonely header\n', 'odd_empty_gz': gzip.compress(b''), 'odd_blank_lines': b'\n\n'}[ftype])
+		return p
 	if ftype == 'text':
 		p = os.path.join(d, 'text.fasta')
 		open(p, 'w').write('this is not\na fasta file\n')
@@ -187,6 +192,9 @@ def run_case(case, ctx):
 	if fault is not None:
 		pos = fault['pos'] % n
 		paths[pos] = make_fault(ctx, fault['type'])
+	odd = case.get('odd') if fault is None else None
+	if odd is not None:
+		paths[odd['pos'] % n] = make_fault(ctx, odd['type'])
 	files = SequenceFile.from_paths(paths, 'fasta', 'auto')
 	if case.get('explicit_compression') and fault is None:
 		files = [SequenceFile(p_, 'fasta', 'gzip' if open(p_, 'rb').read(2) == b'\x1f\x8b' else None) for p_ in paths]
@@ -214,7 +222,7 @@ def run_case(case, ctx):
 			singles.append(e)
 			expect_fail = True
 			continue
-		if fault is None or i != fault['pos'] % n:
+		if (fault is None or i != fault['pos'] % n) and (odd is None or i != odd['pos'] % n):
 			ctx.cache[ck] = s
 		singles.append(s)
 	if fault is not None:
@@ -224,7 +232,7 @@ def run_case(case, ctx):
 		if not isinstance(singles[fi], Exception):
 			raise Violation('fault_swallowed_single', f'calc_file_signature accepted an unparseable file ({fault["type"]}) and returned {len(singles[fi])} k-mers', case)
 		expect_fail = True
-	if fault is None:
+	if fault is None and not expect_fail:
 		for i in range(n):
 			for j in range(i + 1, n):
 				if np.array_equal(singles[i], singles[j]):
@@ -294,7 +302,8 @@ def run_case(case, ctx):
 	if expect_fail:
 		if err is None:
 			got = f'{type(res).__name__} of length {len(res)}' if res is not None else 'None'
-			raise Violation('fault_swallowed', f'file {fault["pos"] % n} ({fault["type"]}) cannot be read ({type(singles[fault["pos"] % n]).__name__}) '
+			bad = fault or odd
+			raise Violation('fault_swallowed', f'file {bad["pos"] % n} ({bad["type"]}) cannot be read ({type(singles[bad["pos"] % n]).__name__}) '
 			                f'but the call returned {got} (mode {mode})', case)
 	else:
 		if err is not None:
@@ -330,6 +339,8 @@ def run_case(case, ctx):
 		if case['skew']:
 			classes.append('size_skew')
 			nontrivial = n >= 2
+	if odd is not None:
+		classes.append('odd_input=' + odd['type'] + ('(rejected by the single-file computation)' if expect_fail else ''))
 	if fault is not None:
 		classes.append('fault=' + fault['type'])
 		classes.append('fault_expected_fail' if expect_fail else 'fault_parses_ok')
@@ -353,6 +364,8 @@ def gen_case(draw, tier):
 		'poison': draw(st.sampled_from([False, False, True])),
 		'explicit_compression': draw(st.booleans()), 'files_as_tuple': draw(st.booleans()),
 		'fault': fault,
+		'odd': draw(st.one_of(st.none(), st.none(), st.builds(lambda p, t: {'pos': p, 'type': t}, st.integers(0, 7),
+		                                                         st.sampled_from(['odd_empty', 'odd_only_header', 'odd_empty_gz', 'odd_blank_lines'])))),
 	}
 
 
